@@ -33,6 +33,7 @@ type fault struct {
 	Occ      int    `json:"occ"`                                // occurrence of that gate (1-based)
 	Block    bool   `json:"peer_stops_reading,omitempty"`       // from the moment of cancellation on the peer accepts no more bytes (writes block)
 	WFail    bool   `json:"cancel_write_fails,omitempty"`       // from the moment of cancellation on, every write on the connection fails
+	Prelude  string `json:"prelude,omitempty"`                  // an earlier call on the same client: "exception" (a query the server failed), "ping-cancelled"
 	Cause    bool   `json:"custom_cause,omitempty"`             // the caller cancels with a cause of its own (context.WithCancelCause / WithTimeoutCause)
 	Far      bool   `json:"far_deadline,omitempty"`             // the caller's context also carries a deadline far beyond the read timeout
 	CloseErr bool   `json:"conn_close_reports_error,omitempty"` // net.Conn.Close tears the connection down but returns an error (e.g. TLS close_notify on a dead peer)
@@ -40,7 +41,7 @@ type fault struct {
 }
 
 func (f fault) String() string {
-	return fmt.Sprintf("%s k=%d gate=%s#%d sched=%s far=%v wfail=%v block=%v closeerr=%v cause=%v", f.Kind, f.K, f.Gate, f.Occ, f.Sched, f.Far, f.WFail, f.Block, f.CloseErr, f.Cause)
+	return fmt.Sprintf("%s k=%d gate=%s#%d sched=%s far=%v wfail=%v block=%v closeerr=%v cause=%v prelude=%s", f.Kind, f.K, f.Gate, f.Occ, f.Sched, f.Far, f.WFail, f.Block, f.CloseErr, f.Cause, f.Prelude)
 }
 
 type scenSpec struct {
@@ -94,6 +95,36 @@ func runScenario(sp scenSpec, f fault, rt time.Duration) (*scenOutcome, error) {
 		conn.mu.Lock()
 		conn.closeErr = fmt.Errorf("sim: close_notify: broken pipe")
 		conn.mu.Unlock()
+	}
+
+	// ---------------- an earlier call on the same client (its outcome must not leak into this one)
+	switch f.Prelude {
+	case "exception":
+		ch.VerifGate = func(point string) {
+			if point == "sender.done" {
+				conn.feed(enc.exception([]srvExc{{60, "DB::Exception", "DB::Exception: no such table", "st"}}))
+			}
+		}
+		pctx, pcancel := context.WithTimeout(context.Background(), 3*time.Second)
+		perr := sc.client.Do(pctx, ch.Query{Body: "SELECT * FROM nowhere", QueryID: "q0"})
+		pcancel()
+		ch.VerifGate = nil
+		if !ch.IsException(perr) || sc.client.IsClosed() {
+			return nil, fmt.Errorf("prelude: expected a server exception on an open client, got %v closed=%v", perr, sc.client.IsClosed())
+		}
+	case "ping-cancelled":
+		pctx, pcancel := context.WithCancel(context.Background())
+		pcancel()
+		_ = sc.client.Ping(pctx)
+		if sc.client.IsClosed() {
+			return nil, fmt.Errorf("prelude: a Ping abandoned before anything was written closed the client")
+		}
+	}
+	if f.Prelude != "" {
+		w0, _, _, _ := conn.snapshot()
+		if f.Prelude == "exception" {
+			sc.helloLen = len(w0) // what the earlier query wrote is not part of this one
+		}
 	}
 
 	// ---------------- the query and the server's reactions
@@ -1085,6 +1116,11 @@ func runC10(c *Ctx) {
 					continue
 				}
 				fs = append(fs, fault{Kind: "cancel", Gate: g, Occ: occ})
+				if occ == 1 || c.Thorough {
+					// the same cancellation on a client that an earlier query left open (failed by the server) / after an abandoned Ping
+					fs = append(fs, fault{Kind: "cancel", Gate: g, Occ: occ, Prelude: "exception"})
+					fs = append(fs, fault{Kind: "cancel", Gate: g, Occ: occ, Prelude: "ping-cancelled"})
+				}
 				if occ == 1 || occ == occs || c.Thorough {
 					fs = append(fs, fault{Kind: "cancel", Gate: g, Occ: occ, Cause: true})
 					fs = append(fs, fault{Kind: "cancel", Gate: g, Occ: occ, Cause: true, Sched: "recv-first"})
